@@ -580,6 +580,34 @@ def gen_refcount(rng, tier, sess):
 # concurrent skiplist: steered schedules, chosen interactively (C13, C14, C15)
 # ------------------------------------------------------------------------------------------------
 
+def inject_line(rng, t, lastout, busy, inflight, nkeys, free, hint=None):
+    """`stepinj`: when thread t is parked at HELP_DELETE (of Iterator.Next or of a search: only the former has a late
+    point behind its CAS, the latter answers `noinj`) let an idle thread perform a whole operation at the late
+    point ITER_HELPED, i.e. between the unlink CAS and the cursor move.  In runs with real reclamation an injected
+    `ins k` / `delf k` never overlaps with the other half of D23 on the same key."""
+    if lastout != 'at HELP_DELETE' or rng.random() < 0.35:
+        return None
+    idle = [b for b in range(len(busy)) if b != t and not busy[b]]
+    if not idle:
+        return None
+    b = rng.choice(idle)
+    k = rng.randrange(nkeys * 2 + 2) + 1          # odd keys too: between two existing nodes
+    r = rng.random()
+    if hint is not None and hint >= 1 and r < 0.5:
+        k = hint - 1                                # just in front of the node the iterator stands on
+    if r < 0.6:
+        op = 'ins %d lvl=%d' % (k, rng.choice((0, 0, 1, 2)))
+        clash = ('delf', k)
+    elif r < 0.85:
+        op = ('delf %d' if free else 'del %d') % k
+        clash = ('ins', k)
+    else:
+        op, clash = 'look %d' % k, None
+    if free and clash and any(x == clash for x in inflight):
+        op = 'look %d' % k
+    return 'stepinj %d %d %s' % (t, b, op)
+
+
 def gen_skipconc(rng, tier, sess, free=False):
     """free=True: real reclamation (mem=mmfree): deletes are `delf` (node handed to the access barrier and freed, freed
     memory faults on access).  An `ins k` and a `delf k` of the SAME key never overlap in these runs: that overlap is
@@ -600,7 +628,13 @@ def gen_skipconc(rng, tier, sess, free=False):
         while o.startswith('at '):
             o = sess.send('step 0')
 
+    lastout = [''] * n
+    lastkey = [None] * n
+
     def handle(t, o):
+        lastout[t] = o
+        if pend[t] and pend[t][0].startswith('it_') and o.startswith('ret ') and o[4:].isdigit():
+            lastkey[t] = int(o[4:])
         if o.startswith('at '):
             busy[t] = True
             return
@@ -639,7 +673,12 @@ def gen_skipconc(rng, tier, sess, free=False):
         else:
             valid = [nm for nm, v in iters[t].items() if v]
             q = rng.random()
-            if valid and q < 0.6:
+            if valid and q < 0.12:
+                # the public Refresh() between two Next calls
+                nm = rng.choice(valid)
+                pend[t] = ('it_next', nm)
+                handle(t, sess.send('start %d it_refresh %s' % (t, nm)))
+            elif valid and q < 0.6:
                 nm = rng.choice(valid)
                 pend[t] = ('it_next', nm)
                 handle(t, sess.send('start %d it_next %s' % (t, nm)))
@@ -665,7 +704,11 @@ def gen_skipconc(rng, tier, sess, free=False):
         t = last if rng.random() < stick else rng.randrange(n)
         last = t
         if busy[t]:
-            handle(t, sess.send('step %d' % t))
+            inj = inject_line(rng, t, lastout[t], busy, inflight, nkeys, free, hint=lastkey[t])
+            if inj:
+                handle(t, sess.send(inj).split(' | ')[0])
+            else:
+                handle(t, sess.send('step %d' % t))
         else:
             start(t)
     guard = 0
@@ -1141,7 +1184,12 @@ def gen_skipconc_scan(rng, tier, sess):
             while o.startswith('at '):
                 o = sess.send('step 0')
     busy = [False] * n
+    lastout = [''] * n
+    cursor = None
+    want_refresh = False
     o = sess.send('start 0 it_first s')
+    if o[4:].isdigit():
+        cursor = int(o[4:])
     valid = o.startswith('ret') and o != 'ret end'
     sess.send('start 0 it_interval s %d' % rng.choice((1, 1, 2, 3)))
     stick = rng.random() * 0.92
@@ -1153,10 +1201,53 @@ def gen_skipconc_scan(rng, tier, sess):
         else:
             t = 0 if rng.random() < 0.45 else rng.randrange(1, n)
         last = t
+        if (t == 0 and not busy[0] and valid and cursor is not None and rng.random() < 0.12
+                and not any(x is not None and x[1] == cursor for x in inflight)):
+            # the node under the cursor is deleted by another thread, which is left between its level-0 mark and its
+            # cleaning search; the scanner then unlinks the node itself (HELP_DELETE of Next) and an operation of a
+            # third party runs at the late point behind that CAS
+            others = [b for b in range(1, n) if not busy[b]]
+            if others:
+                b = rng.choice(others)
+                inflight[b] = ('delf' if free else 'del', cursor)
+                ob = sess.send('start %d %s %d' % (b, inflight[b][0], cursor))
+                guard2 = 0
+                whole = rng.random() < 0.4          # or: the whole delete (with reclamation: node handed to the barrier)
+                want_refresh = whole and rng.random() < 0.6
+                while ob.startswith('at ') and (whole or ob != 'at DEL_SEARCH') and guard2 < 200:
+                    guard2 += 1
+                    ob = sess.send('step %d' % b)
+                busy[b] = ob.startswith('at ')
+                lastout[b] = ob
+                if not busy[b]:
+                    inflight[b] = None
         if busy[t]:
-            o = sess.send('step %d' % t)
+            inj = inject_line(rng, t, lastout[t], busy, inflight, nkeys, free, hint=cursor if t == 0 else None)
+            o = sess.send(inj).split(' | ')[0] if inj else sess.send('step %d' % t)
         elif t == 0:
-            if valid:
+            q = rng.random()
+            if valid and (q < 0.15 or want_refresh):
+                want_refresh = False
+                o = sess.send('start 0 it_refresh s')
+            elif valid and q < 0.25 and not free:
+                # Pause / Resume around whole operations of the other threads (with real reclamation a paused iterator
+                # is not protected: recorded finding C15-D24, replayed separately)
+                sess.send('start 0 it_pause s')
+                for _p in range(rng.randrange(0, 4)):
+                    b = rng.randrange(1, n)
+                    if busy[b]:
+                        ob = sess.send('step %d' % b)
+                    else:
+                        kk = rng.randrange(nkeys) * 2 + 2
+                        inflight[b] = (rng.choice(('ins', 'del')), kk)
+                        ob = sess.send('start %d ins %d lvl=%d' % (b, kk, rng.choice((0, 1)))) if inflight[b][0] == 'ins' else sess.send('start %d del %d' % (b, kk))
+                    busy[b] = ob.startswith('at ')
+                    lastout[b] = ob
+                    if not busy[b]:
+                        inflight[b] = None
+                sess.send('start 0 it_resume s')
+                o = 'resumed'          # the cursor is where it was
+            elif valid:
                 o = sess.send('start 0 it_next s')
             else:
                 o = sess.send(rng.choice(('start 0 it_first s', 'start 0 it_seek s %d' % rng.randrange(nkeys * 2 + 3))))
@@ -1171,10 +1262,13 @@ def gen_skipconc_scan(rng, tier, sess):
             else:
                 o = sess.send('start %d %s %d' % (t, want, k))
         busy[t] = o.startswith('at ')
+        lastout[t] = o
         if not busy[t]:
             inflight[t] = None
         if t == 0 and o.startswith('ret'):
             valid = o != 'ret end' and o != 'ret'
+            if o[4:].isdigit():
+                cursor = int(o[4:])
     guard = 0
     while any(busy) and guard < 100000:
         guard += 1
